@@ -73,6 +73,50 @@ def check_targets():
     return n, bad
 
 
+_BARE = r"""
+import importlib, json, sys
+bad = []
+for mod, name in json.loads(sys.argv[1]):
+    try:
+        m = importlib.import_module(mod)
+        if not hasattr(m, name):
+            bad.append([mod, name, "attribute missing"])
+    except BaseException as e:
+        bad.append([mod, name, type(e).__name__ + ": " + str(e)[:120]])
+print(json.dumps(bad))
+"""
+
+
+def check_targets_bare():
+    """Every mapping target again in a BARE interpreter: no site-packages (-S), only the d42
+    source tree and its two runtime dependencies on the path (a vendored / checked-out copy has
+    no installed metadata), warnings raised as errors.  Returns (n, bad) or (0, None) when the
+    child could not be set up."""
+    import json
+    import os
+    import subprocess
+    import sys
+    import tempfile
+    from .. import env
+    targets = sorted({(nm, nn) for names in MAPPING0.values() for nm, nn in names.values()})
+    d = tempfile.mkdtemp(prefix="c19bare.")
+    try:
+        os.symlink(os.path.join(env.REPO, "d42"), os.path.join(d, "d42"))
+        for dep in ("niltype", "th"):
+            src = os.path.dirname(importlib.import_module(dep).__file__)
+            os.symlink(src, os.path.join(d, dep))
+        e = {k: v for k, v in os.environ.items() if not k.startswith("PYTHON")}
+        e.update(PYTHONPATH=d, PYTHONDONTWRITEBYTECODE="1")
+        p = subprocess.run([sys.executable, "-S", "-W", "error", "-c", _BARE, json.dumps(targets)],
+                           capture_output=True, text=True, timeout=300, env=e, cwd=d)
+        if p.returncode != 0:
+            return 0, [["<child>", "", (p.stderr or "")[-300:]]]
+        return len(targets), json.loads(p.stdout)
+    finally:
+        import shutil
+        shutil.rmtree(d, ignore_errors=True)
+
+
 def expected_bindings(node):
     """Multiset (sorted list) of (module, name, local name) the replacement must bind."""
     out = []
@@ -234,6 +278,11 @@ def worker(shard, nshards, tier, seed, mode="shard"):
         acc.count("mapping_targets", n)
         for b in bad:
             acc.violation(f"C19|mapping-target-not-importable|{b[2]}.{b[3]}", {"target": list(b)})
+        nb, badb = check_targets_bare()
+        acc.count("mapping_targets_in_a_bare_interpreter", nb)
+        for b in badb or []:
+            acc.violation(f"C19|mapping-target-not-importable-in-a-bare-interpreter|{b[0]}.{b[1]}",
+                          {"target": list(b), "bare": True})
         for b in local_name_preserved():
             acc.violation(f"C19|mapped-name-changes-local-binding|{b[0]}.{b[1]}", {"entry": list(b)})
     todo = ((i, m) for i, m in enumerate(modules(tier)) if i % nshards == shard)
@@ -306,5 +355,7 @@ def replay(case):
         k = judge(case["source"])
         shared = "shared-line" if case.get("joiner") == ";" else "own-lines"
         return f"C19|{k}|{shared}" if k else None
+    if case.get("bare"):
+        return True if check_targets_bare()[1] else None
     n, bad = check_targets()
     return True if bad or local_name_preserved() else None
